@@ -30,3 +30,4 @@ def run(prog, rep):
     from ..rules import r_key as _rk13
     _rk13.run_setter_verbatim(prog, rep, classes=('nix::SampledDimension', 'nix::RangeDimension', 'nix::SetDimension', 'nix::DataFrameDimension', 'nix::DataArray'), floor=8)
     _rk13.run_store_verbatim(prog, rep)
+    _rk13.run_getter_verbatim(prog, rep)
